@@ -840,6 +840,31 @@ def generate_error_buffer(seed, tie='prng'):
             'tie': tie, 'seed': seed, 'max_events': 20000, 'profile': 'error_buffer'}
 
 
+def generate_pool_race(seed, tie='prng'):
+    """A set-up station holds two (or three) pools and gives them back at one instant; one machine per pool has been
+    waiting for it, and all of them also need the single unit of a further pool: whoever is called back first gets it.
+    The order is the order of registration - never that of a hash table."""
+    rng = random.Random(core.stable_int('race', seed))
+    k = rng.choice([2, 2, 3])
+    names = rng.sample(['crane', 'forklift', 'jig', 'ra', 'rb', 'press', 'oven', 'tool'], k)
+    shared = 'operator'
+    resources = {n: 1 for n in names}
+    resources[shared] = 1
+    items = [{'id': 'S0', 'kind': 'source', 'ct': 0, 'budget': rng.choice([1, 2]), 'values': [1], 'qualities': [1]},
+             {'id': 'P0', 'kind': 'processor', 'up': ['S0'], 'ct': rng.choice([2, 3]), 'res': {n: 1 for n in names}},
+             {'id': 'K0', 'kind': 'sink', 'up': ['P0'], 'ct': 0, 'collect': False}]
+    order = list(range(k))
+    rng.shuffle(order)
+    for j in order:
+        items.append({'id': f'S{j + 1}', 'kind': 'source', 'ct': rng.choice([0.5, 1]), 'budget': None, 'values': [1],
+                      'qualities': [1]})
+        items.append({'id': f'P{j + 1}', 'kind': 'processor', 'up': [f'S{j + 1}'], 'ct': rng.choice([1, 1.5]),
+                      'res': {names[j]: 1, shared: 1}})
+        items.append({'id': f'K{j + 1}', 'kind': 'sink', 'up': [f'P{j + 1}'], 'ct': 0, 'collect': False})
+    return {'resources': resources, 'items': items, 'horizon': [float(rng.choice([12, 20]))], 'script': [], 'tie': tie,
+            'seed': seed, 'max_events': 20000, 'profile': 'pool_race'}
+
+
 def generate_shared_cell(seed, tie='prng'):
     """Two or three sources that always compete for one shared cell (a group with a single slow machine), each through
     its own, default-named path to its own sink."""
